@@ -90,6 +90,15 @@ func ScopeMiddleware(provider godi.Provider, opts ...Option) echo.MiddlewareFunc
 		opt(cfg)
 	}
 
+	// A handler that an option set to nil is the default one
+	defaults := defaultConfig()
+	if cfg.ErrorHandler == nil {
+		cfg.ErrorHandler = defaults.ErrorHandler
+	}
+	if cfg.CloseErrorHandler == nil {
+		cfg.CloseErrorHandler = defaults.CloseErrorHandler
+	}
+
 	return func(next echo.HandlerFunc) echo.HandlerFunc {
 		return func(c echo.Context) error {
 			scope, err := provider.CreateScope(c.Request().Context())
@@ -198,6 +207,18 @@ func Handle[T any](method func(T, echo.Context) error, opts ...HandlerOption) ec
 	cfg := defaultHandlerConfig()
 	for _, opt := range opts {
 		opt(cfg)
+	}
+
+	// A handler that an option set to nil is the default one
+	defaults := defaultHandlerConfig()
+	if cfg.PanicHandler == nil {
+		cfg.PanicHandler = defaults.PanicHandler
+	}
+	if cfg.ScopeErrorHandler == nil {
+		cfg.ScopeErrorHandler = defaults.ScopeErrorHandler
+	}
+	if cfg.ResolutionErrorHandler == nil {
+		cfg.ResolutionErrorHandler = defaults.ResolutionErrorHandler
 	}
 
 	return func(c echo.Context) (err error) {
